@@ -97,6 +97,33 @@ Theorem C06_no_empty_refuted_before_fix :
 Proof. exact no_empty_refuted_before_fix. Qed.
 Print Assumptions C06_no_empty_refuted_before_fix.
 
+(* the statement is decidable: the boolean twins accept exactly the consistent recipes.  They are
+   extracted into the runner, which evaluates them on the recipes the implementation returned (and on
+   damaged copies of them in the monitor self-test) next to the Rust monitor of the harness; the check
+   requires the two verdicts to agree on every recipe *)
+Theorem C06_decidable : forall r, recipe_ok_b r = true <-> recipe_ok r.
+Proof. exact recipe_ok_b_spec. Qed.
+Print Assumptions C06_decidable.
+
+Theorem C06_valid_decidable :
+  forall ci_key tbl, valid_tbl_b ci_key tbl = true <-> valid_tbl ci_key tbl.
+Proof. exact valid_tbl_b_spec. Qed.
+Print Assumptions C06_valid_decidable.
+
+(* the statement is not vacuous: it accepts a recipe with a definition and a reference, and rejects a
+   recipe for each of its conjuncts (index out of range, out of document order, missing back link,
+   back link twice, reference to a reference, step / section reference not earlier, wrong step number,
+   empty step, empty text item, timer without name and quantity) *)
+Example C06_statement_sensitive :
+  recipe_ok (bad_recipe [IIngredient 0; IText [32%N]; IIngredient 1] 1
+               [bad_comp mods_empty (RDef [1] true); bad_comp M_ref_only (RRef 0 TgComponent)] []) /\
+  ~ recipe_ok (bad_recipe [IIngredient 0] 1 [] []) /\
+  ~ recipe_ok (bad_recipe [IText [32%N]] 2 [] []) /\
+  ~ recipe_ok (bad_recipe [] 1 [] []).
+Proof.
+  pose proof recipe_ok_sensitive as H. repeat split; apply H.
+Qed.
+
 (* ---- the hypotheses are satisfiable: a stream with a definition, a reference to it, and a
    reference to the first step is parser-shaped and analyses to a valid recipe ---- *)
 Definition demo_text (s : str) : text := text_from_str s 0.
